@@ -45,8 +45,15 @@ type Contract struct {
 	Inlines  map[string]bool // callee keys to inline in this function
 	Implements []string    // interface contracts this function must satisfy
 	Lets     []LetDef
+	Counts   []CountDef // call-history ghosts: counts <ghost> when <cond over results>
 	File     string
 	Line     int
+}
+
+type CountDef struct {
+	Ghost string
+	Cond  *SExpr
+	Src   string
 }
 
 type LetDef struct {
@@ -109,7 +116,7 @@ type Specs struct {
 var headerRe = regexp.MustCompile(`^func\s*(\(\s*(\w+)?\s*(\*?)\s*(\w+)\s*\))?\s*(\w+)\s*$`)
 
 var clauseKw = map[string]bool{"property": true, "opts": true, "requires": true, "ensures": true, "modifies": true,
-	"loop": true, "invariant": true, "inline": true, "implements": true, "let": true, "params": true, "decreases": true}
+	"loop": true, "invariant": true, "inline": true, "implements": true, "counts": true, "let": true, "params": true, "decreases": true}
 var topKw = map[string]bool{"spec": true, "ghost": true, "lemma": true, "axiom": true, "func": true, "closure": true,
 	"interface": true, "extern": true, "directive": true, "fnvalue": true}
 
@@ -324,6 +331,19 @@ func loadContractFile(path, pkgPath string, resolveQual func(q string) string, s
 				k := strings.Index(n, ".")
 				cur.Implements = append(cur.Implements, resolveQual(n[:k])+n[k:])
 			}
+		case "counts":
+			if cur == nil {
+				return fail(l, "counts outside a contract")
+			}
+			k := strings.Index(rest, " when ")
+			if k < 0 {
+				return fail(l, "counts <ghost> when <condition>")
+			}
+			e, err := parseSpecExpr(rest[k+6:])
+			if err != nil {
+				return fail(l, "%v", err)
+			}
+			cur.Counts = append(cur.Counts, CountDef{Ghost: strings.TrimSpace(rest[:k]), Cond: e, Src: rest[k+6:]})
 		case "inline":
 			if cur == nil {
 				return fail(l, "inline outside a contract")
